@@ -747,6 +747,54 @@ fn gen(rng: &mut Rng, n: usize, tier: &str) -> Vec<String> {
             .collect();
         out.push(format!("C {} {}", show_ops(&pre), ths.join(" ")));
     }
+    // (3b) readers under contention: EVERY public read method as a concurrent observer. Two threads change the knowledge
+    // base (adds over a few names and saliences, removals, toggles, clears: the listing, the index and the version move all
+    // the time), the third thread calls four read methods; the read methods are dealt round-robin over the cases, so every
+    // three consecutive cases call all eleven of them (get_rule, get_rules, get_rule_names, rule_count,
+    // get_rules_by_salience, get_rule_by_index, version, get_statistics, get_rules_snapshot, export_to_grl, clone) and
+    // each method is observed against contention in n/44 * 4 histories. A reader that answers "absent" / "empty" for
+    // something stored in every linearization (a `try_read` that gives up, a guard dropped early) is a history without
+    // linearization.
+    let mut deal = 0usize;
+    for _ in 0..(n / 16).max(12) {
+        let names = *rng.pick(&[2u32, 3, 3]);
+        let pre: Vec<Op> = (0..rng.range(1, 3)).map(|_| Op::Add(rng.below(names as u64) as u32, *rng.pick(&SALS), true)).collect();
+        let mut ths: Vec<String> = (0..2)
+            .map(|_| {
+                show_ops(
+                    &(0..4)
+                        .map(|_| loop {
+                            let o = random_mutator(rng, names, &SALS);
+                            if o != Op::CloneKb {
+                                break o;
+                            }
+                        })
+                        .collect::<Vec<_>>(),
+                )
+            })
+            .collect();
+        let readers: Vec<Op> = (0..4)
+            .map(|_| {
+                deal += 1;
+                let n = rng.below(names as u64) as u32;
+                match deal % 11 {
+                    0 => Op::GetRule(n),
+                    1 => Op::GetRules,
+                    2 => Op::Names,
+                    3 => Op::Count,
+                    4 => Op::BySalience,
+                    5 => Op::ByIndex(rng.below(3) as usize),
+                    6 => Op::Version,
+                    7 => Op::Stats,
+                    8 => Op::Snapshot,
+                    9 => Op::Export,
+                    _ => Op::CloneKb,
+                }
+            })
+            .collect();
+        ths.insert(rng.below(3) as usize, show_ops(&readers));
+        out.push(format!("C {} {}", show_ops(&pre), ths.join(" ")));
+    }
     out
 }
 
